@@ -87,6 +87,27 @@ impl RootCatalog {
         schema.add_table(name, columns, ordered_pk_ids)
     }
 
+    /// Reserves the id of a table that will be added by [`Self::add_table_with_id`].
+    pub fn reserve_table_id(&self, schema_id: SchemaId) -> TableId {
+        let mut inner = self.inner.lock().unwrap();
+        let schema = inner.schemas.get_mut(&schema_id).unwrap();
+        schema.reserve_table_id()
+    }
+
+    /// Adds a table under a given id.
+    pub fn add_table_with_id(
+        &self,
+        schema_id: SchemaId,
+        table_id: TableId,
+        name: String,
+        columns: Vec<ColumnCatalog>,
+        ordered_pk_ids: Vec<ColumnId>,
+    ) -> Result<TableId, CatalogError> {
+        let mut inner = self.inner.lock().unwrap();
+        let schema = inner.schemas.get_mut(&schema_id).unwrap();
+        schema.add_table_with_id(table_id, name, columns, ordered_pk_ids)
+    }
+
     pub fn add_view(
         &self,
         schema_id: SchemaId,
